@@ -9,7 +9,8 @@
    name AND the header's contigs (header_kf). *)
 From MafVerif Require Import lib.Base lib.Str lib.SortOrderLib model.SortOrder model.OrderCheck
   model.WriterSort model.SortOrderDispatch spec.SpecOrder proofs.SortOrderFacts
-  proofs.SortOrderCheckFacts proofs.SortOrderHeaderFacts proofs.SortOrderWriterFacts.
+  proofs.SortOrderCheckFacts proofs.SortOrderHeaderFacts proofs.SortOrderWriterFacts
+  proofs.SortOrderPrintFacts.
 From Coq Require Import Sorted Permutation.
 
 (* sorting on: after close the handle holds the header lines, the column line
@@ -32,6 +33,32 @@ Theorem C10_sorting_writer_obeys_its_header :
       (header_coherent h -> reader_iter (wh_text h) (map view ys) = (map view ys, Ok tt)).
 Proof. exact sorting_writer_obeys_its_header. Qed.
 Print Assumptions C10_sorting_writer_obeys_its_header.
+
+(* for a header built by MafHeader.from_lines (any lines) the side condition
+   holds: what the writer prints reads back as the same order and contigs, so
+   the library's reader iterates the produced records to the end *)
+Theorem C10_header_from_lines_reads_back :
+  forall hl scheme, sortable (wheader_of_lines hl scheme) -> header_coherent (wheader_of_lines hl scheme).
+Proof. exact from_lines_header_coherent. Qed.
+Print Assumptions C10_header_from_lines_reads_back.
+
+Theorem C10_sorting_writer_output_is_readable :
+  forall (R : Type) (view : R -> locatable) (render : R -> str) (rkeys : R -> list str)
+         (validate : R -> res unit) (sorter_iter : keyfn -> list R -> res (list R))
+         (hl : list str) (scheme : option (list str)) (rs : list R),
+    let h := wheader_of_lines hl scheme in
+    sorter_contract R view render sorter_iter -> sortable h ->
+    Forall (fun r => validate r = Ok tt) rs ->
+    Forall (fun r => good (header_kf h) (view r)) rs ->
+    exists w ys,
+      writer_session R view render rkeys validate sorter_iter h false rs = (w, Ok tt) /\
+      w_closed R w = true /\
+      w_out R w = wh_text h ++ col_lines R rkeys h rs ++ map render ys /\
+      Permutation (map render ys) (map render rs) /\
+      StronglySorted (fun a b => rec_ltb (header_kf h) (view b) (view a) = false) ys /\
+      reader_iter (wh_text h) (map view ys) = (map view ys, Ok tt).
+Proof. exact sorting_writer_from_lines. Qed.
+Print Assumptions C10_sorting_writer_output_is_readable.
 
 (* sorting off: records appear in exactly the order they were written *)
 Theorem C10_unsorted_writer_keeps_write_order :
@@ -67,10 +94,7 @@ Definition rec_ (c : str) (s : Z) : wrec :=
    (c ++ [TAB] ++ render_int s ++ [TAB] ++ render_int s, names3)).
 
 (* the header MafHeader.from_lines builds from the two pragma lines *)
-Definition demo_header : wheader :=
-  let h := header_from_lines [l_so; l_ct] in
-  {| wh_text := header_print h; wh_sort := h_sort_order h;
-     wh_contigs := pv_contigs (h_contigs h); wh_scheme := None |}.
+Definition demo_header : wheader := wheader_of_lines [l_so; l_ct] None.
 
 Example demo_header_hyps : sortable demo_header /\ header_coherent demo_header /\
   header_kf demo_header = {| kf_bar := false; kf_contigs := [PStr chr1; PStr chr2; PStr chr10] |}.
